@@ -166,6 +166,56 @@ class Vec:
         return f"Vec{self.vals!r}"
 
 
+class Obj:
+    """Abstract object of a scenario: attributes and methods supplied by the rule."""
+
+    def __init__(self, name: str, attrs: Optional[Dict[str, Any]] = None, methods: Optional[Dict[str, Callable]] = None):
+        self.name = name
+        self.attrs = attrs or {}
+        self.methods = methods or {}
+
+    def __repr__(self):
+        return f"<{self.name}>"
+
+
+class Mat(Obj):
+    """2-D array of the abstract state (rows are python lists, shared by reference like numpy views of rows)."""
+
+    def __init__(self, rows: List[List[Any]]):
+        super().__init__("Mat")
+        self.rows = rows
+        self.methods = {
+            "flatten": lambda ev, call, args, kw: [x for r in self.rows for x in r],
+            "tolist": lambda ev, call, args, kw: [list(r) for r in self.rows],
+            "transpose": lambda ev, call, args, kw: Mat([list(c) for c in zip(*self.rows)]) if self.rows else Mat([]),
+            "copy": lambda ev, call, args, kw: Mat([list(r) for r in self.rows]),
+        }
+
+    def abs_len(self):
+        return len(self.rows)
+
+    def abs_getitem(self, idx, node):
+        if isinstance(idx, int) and not isinstance(idx, bool):
+            if not 0 <= idx < len(self.rows):
+                raise IndexOut(idx, len(self.rows), node)
+            return self.rows[idx]
+        if isinstance(idx, list) and all(isinstance(i, int) for i in idx):
+            for i in idx:
+                if not 0 <= i < len(self.rows):
+                    raise IndexOut(i, len(self.rows), node)
+            return Mat([self.rows[i] for i in idx])
+        raise Unsupported(f"matrix index {idx!r}", node)
+
+    def __repr__(self):
+        return f"Mat{self.rows!r}"
+
+    def __eq__(self, other):
+        return isinstance(other, Mat) and self.rows == other.rows
+
+    def __hash__(self):
+        return id(self)
+
+
 def _num(v):
     return isinstance(v, (int, float, Fraction)) and not isinstance(v, bool)
 
@@ -234,6 +284,11 @@ def _compare(op: ast.cmpop, a, b, node):
             r = a in b
             return r if isinstance(op, ast.In) else not r
         raise Unsupported("membership in abstract container", node)
+    if isinstance(op, (ast.Is, ast.IsNot)) and (a is None or b is None or isinstance(a, Obj) or isinstance(b, Obj)):
+        return (a is b) if isinstance(op, ast.Is) else (a is not b)
+    if isinstance(op, (ast.Eq, ast.NotEq)) and (isinstance(a, (Sym, Lin)) != isinstance(b, (Sym, Lin))) \
+            and not _num(a) and not _num(b) and not isinstance(a, bool) and not isinstance(b, bool):
+        return isinstance(op, ast.NotEq)     # a symbol never equals None / a string / a container
     if isinstance(a, (Sym, Lin)) or isinstance(b, (Sym, Lin)):
         la, lb = Lin.of(a), Lin.of(b)
         d = la - lb
@@ -436,9 +491,10 @@ class Evaluator:
                 if v.format_spec is not None or v.conversion != -1:
                     raise Unsupported("format spec in f-string", n)
                 val = self.ev(v.value)
-                if not isinstance(val, (int, str)):
-                    raise Unsupported("non-literal in f-string", n)
-                out.append(str(val))
+                if isinstance(val, (int, str, float)):
+                    out.append(str(val))
+                else:
+                    out.append(f"<{type(val).__name__}>")       # text rendering of an abstract value
         return "".join(out)
 
     def _e_UnaryOp(self, n):
@@ -526,6 +582,13 @@ class Evaluator:
                     raise IndexOut(idx, len(base.vals), n)
                 return base.vals[idx]
             raise Unsupported("subscript of vector", n)
+        if hasattr(base, "abs_getitem"):
+            return base.abs_getitem(idx, n)
+        if isinstance(base, list) and isinstance(idx, list) and all(isinstance(i, int) for i in idx):
+            for i in idx:
+                if not 0 <= i < len(base):
+                    raise IndexOut(i, len(base), n)
+            return [base[i] for i in idx]       # numpy row selection
         if isinstance(base, (list, tuple, str)):
             if not isinstance(idx, int) or isinstance(idx, bool):
                 raise Unsupported("non-int index", n)
@@ -549,6 +612,11 @@ class Evaluator:
             if v is not None:
                 return v
         base = self.ev(n.value)
+        if isinstance(base, Obj):
+            if n.attr in base.attrs:
+                v = base.attrs[n.attr]
+                return v() if callable(v) else v
+            raise Unsupported(f"attribute {n.attr} of {base!r}", n)
         if isinstance(base, dict) and n.attr in base:
             return base[n.attr]
         raise Unsupported(f"attribute {n.attr}", n)
@@ -558,6 +626,14 @@ class Evaluator:
         args = None
         if name is not None and name in self.funcs:
             return self.funcs[name](self, n)
+        if isinstance(n.func, ast.Attribute):
+            obj = self._maybe_obj(n.func.value)
+            if obj is not None:
+                if n.func.attr not in obj.methods:
+                    raise Unsupported(f"method {n.func.attr} of {obj!r}", n)
+                args = [self.ev(a) for a in n.args]
+                kw = {k.arg: self.ev(k.value) for k in n.keywords}
+                return obj.methods[n.func.attr](self, n, args, kw)
         if isinstance(n.func, ast.Attribute) and ("." + n.func.attr) in self.funcs:
             return self.funcs["." + n.func.attr](self, n)
         if isinstance(n.func, ast.Attribute):
@@ -570,8 +646,8 @@ class Evaluator:
             if n.keywords:
                 raise Unsupported("keywords in builtin call", n)
             if name == "len":
-                if isinstance(args[0], (list, tuple, str, dict, set, Vec)):
-                    return len(args[0])
+                if isinstance(args[0], (list, tuple, str, dict, set, frozenset, Vec)) or hasattr(args[0], "abs_len"):
+                    return args[0].abs_len() if hasattr(args[0], "abs_len") else len(args[0])
                 raise Unsupported("len of abstract value", n)
             if name in ("min", "max"):
                 vals = args[0] if len(args) == 1 else args
@@ -595,13 +671,21 @@ class Evaluator:
                     raise Unsupported("range over abstract bound", n)
                 return list(range(*args))
             if name == "str":
-                if isinstance(args[0], (int, str)):
+                if isinstance(args[0], (int, str, float)):
+                    return str(args[0])
+                if isinstance(args[0], (list, tuple)) and all(isinstance(x, (int, str, float)) for x in args[0]):
                     return str(args[0])
                 raise Unsupported("str of abstract", n)
             if name == "bool":
                 return self.truth(args[0], n)
+            if name in ("list", "tuple", "set") and not args:
+                return {"list": list, "tuple": tuple, "set": set}[name]()
             if name in ("list", "tuple", "sorted", "set"):
-                if isinstance(args[0], (list, tuple, set)):
+                if isinstance(args[0], Vec):
+                    args[0] = list(args[0].vals)
+                if isinstance(args[0], dict):
+                    args[0] = list(args[0])
+                if isinstance(args[0], (list, tuple, set, frozenset)):
                     return {"list": list, "tuple": tuple, "sorted": sorted, "set": set}[name](args[0])
                 raise Unsupported(f"{name} of abstract", n)
             if name == "enumerate":
@@ -653,6 +737,14 @@ class Evaluator:
         # alias resolution: a name bound to a Sym is a *view* of the symbol (cost_elem1_elem2 = matrix[e1][e2])
         key = self._alias_key(target)
         self.effects.append(Effect(key, op, value, stmt))
+        if isinstance(target, ast.Attribute):
+            d = _dotted(target)
+            if d is not None:
+                if op == "=":
+                    self.env[d] = value
+                elif d in self.env:
+                    binop = {"+=": ast.Add(), "-=": ast.Sub(), "*=": ast.Mult()}[op]
+                    self.env[d] = _arith(binop, self.env[d], value, stmt)
 
     def _concrete_store(self, base, idx, op, value, stmt):
         binop = {"+=": ast.Add(), "-=": ast.Sub(), "*=": ast.Mult()}.get(op)
@@ -746,8 +838,15 @@ class Evaluator:
             return
         if isinstance(st, ast.For):
             it = self.ev(st.iter)
+            if isinstance(it, (set, frozenset)):
+                it = sorted(it, key=repr)
+            elif isinstance(it, dict):
+                it = list(it)
+            elif isinstance(it, Vec):
+                it = list(it.vals)
             if not isinstance(it, (list, tuple)):
                 raise Unsupported("loop over abstract iterable", st)
+            it = list(it)
             broke = False
             for v in it:
                 self.store(st.target, "=", v, st)
@@ -792,6 +891,13 @@ class Evaluator:
             return
         raise Unsupported(f"statement {type(st).__name__}", st)
 
+    def _maybe_obj(self, node: ast.AST) -> Optional[Obj]:
+        try:
+            v = self.ev(node)
+        except Unsupported:
+            return None
+        return v if isinstance(v, Obj) else None
+
     def _container_call(self, call: ast.Call):
         """Method call on a concrete python container held in the abstract environment."""
         try:
@@ -833,6 +939,10 @@ class Evaluator:
             self.funcs[name](self, call)
             return
         if isinstance(call.func, ast.Attribute):
+            obj = self._maybe_obj(call.func.value)
+            if obj is not None:
+                self._e_Call(call)
+                return
             if ("." + call.func.attr) in self.funcs:
                 self.funcs["." + call.func.attr](self, call)
                 return
